@@ -239,3 +239,117 @@ def mpf_post(self, x, n, exact, r):
 
 def mpf_raises(self, x, n, exact):
     return float_family_raises(self, x, exact, mpf_R(self, x, n))
+
+
+# ---------------------------------------------------------------------------
+# MPBFloat family: MPSFloat(pmax, emin) cut off at -|neg_maxval| .. pos_maxval
+
+@invariant('fpy2.number.context.mpb_float:MPBFloatContext')
+def inv_MPBFloatContext(k):
+    return (k.pmax >= 1 and not k.pos_maxval._s and k.neg_maxval._s and k.overflow.name != 'WRAP'
+            and k._fmt.pmax == k.pmax and k._fmt.emin == k.emin
+            and same_real(k._fmt.pos_maxval, k.pos_maxval) and same_real(k._fmt.neg_maxval, k.neg_maxval))
+
+
+@opaque
+def mag_lt_ec(e1, c1, e2, c2):
+    """c1 * 2^e1 < c2 * 2^e2 (same alignment as spec.real.mag_lt)"""
+    e0 = ite(e1 <= e2, e1, e2)
+    return c1 * pow2(e1 - e0) < c2 * pow2(e2 - e0)
+
+
+def bounded_post(self, x, n, r, R, nmin, pmax, rto, rte, inf_signed, has_neg_zero):
+    """
+    shared post of the families with a maximum value (MPBFloat, MPBFixed): R = unbounded rounding
+    (exp, c, inexact, carry); beyond range (K4) <=> |R| > maxval of the operand's sign
+    """
+    nan = op_nan(x)
+    inf = op_inf(x)
+    xr = op_real(x)
+    fin = not nan and not inf
+    nz = fin and xr._c != 0
+    s = xr._s
+    mv_exp = ite(s, self.neg_maxval._exp, self.pos_maxval._exp)
+    mv_c = ite(s, self.neg_maxval._c, self.pos_maxval._c)
+    ovf = nz and mag_lt_ec(mv_exp, mv_c, R[0], R[1])
+    ok = nz and not ovf
+    om = self.overflow.name
+    toinf = ovf_to_inf(self.rm, s, rto, rte)
+    arm_inf = ovf and om == 'OVERFLOW' and toinf
+    arm_max = ovf and (om == 'SATURATE' or (om == 'OVERFLOW' and not toinf))
+    out = {
+        'ctx': same_obj(r._ctx, self),
+        # K5 special values
+        'nan_enabled': implies(nan and self.enable_nan, r._isnan and not r._isinf),
+        'nan_subst': (same_real(r._real, self.nan_value._real) and r._isnan == self.nan_value._isnan
+                      and r._isinf == self.nan_value._isinf) if (nan and not self.enable_nan and self.nan_value is not None) else True,
+        'inf_enabled': implies(inf and self.enable_inf, r._isinf and not r._isnan and r._real._s == xr._s),
+        'inf_subst': ((r._real._s == (xr._s if inf_signed else self.inf_value._real._s))
+                      and r._real._exp == self.inf_value._real._exp
+                      and r._real._c == self.inf_value._real._c and r._isnan == self.inf_value._isnan
+                      and r._isinf == self.inf_value._isinf) if (inf and not self.enable_inf and self.inf_value is not None) else True,
+        # K2 zero keeps its sign (+0 where the format has no -0), no flags
+        'zero': implies(fin and xr._c == 0, fl_finite(r) and r._real._c == 0
+                        and r._real._s == (xr._s and has_neg_zero) and flags_clear(r._real)),
+        # K2/K3 within range: the correctly rounded value, truthful flags
+        'finite': implies(ok, fl_finite(r)),
+        'sign': implies(ok, r._real._s == (xr._s and (has_neg_zero or R[1] != 0))),
+        'exp': implies(ok, r._real._exp == R[0]),
+        'c': implies(ok, r._real._c == R[1]),
+        'inexact': implies(ok, r._real._flags.inexact == R[2]),
+        'no_overflow': implies(ok, not r._real._flags.overflow),
+        # K1 member of the format
+        'member_p': implies(ok, bl(r._real._c) <= pmax) if pmax is not None else True,
+        'member_n': implies(ok, r._real._exp > n) if n is not None else True,
+        'member_nmin': implies(ok, r._real._exp > nmin),
+        'member_range': implies(ok, not mag_lt_ec(mv_exp, mv_c, r._real._exp, r._real._c)),
+        # K4 beyond range, by overflow mode
+        'ovf_inf_enabled': implies(arm_inf and self.enable_inf, r._isinf and not r._isnan and r._real._s == s),
+        'ovf_inf_subst': implies(arm_inf and not self.enable_inf,
+                                 (r._real._s == (s if inf_signed else self.inf_value._real._s))
+                                 and r._real._exp == self.inf_value._real._exp
+                                 and r._real._c == self.inf_value._real._c and r._isnan == self.inf_value._isnan
+                                 and r._isinf == self.inf_value._isinf) if self.inf_value is not None else True,
+        'ovf_max': implies(arm_max, fl_finite(r) and r._real._s == s and r._real._exp == mv_exp and r._real._c == mv_c),
+        'ovf_flag_overflow': implies(ovf, r._real._flags.overflow),
+        'ovf_flag_inexact': implies(ovf, r._real._flags.inexact),
+    }
+    return out
+
+
+def bounded_raises(self, x, exact, R, rto, rte):
+    nan = op_nan(x)
+    inf = op_inf(x)
+    xr = op_real(x)
+    nz = op_nonzero(x)
+    s = xr._s
+    mv_exp = ite(s, self.neg_maxval._exp, self.pos_maxval._exp)
+    mv_c = ite(s, self.neg_maxval._c, self.pos_maxval._c)
+    ovf = nz and mag_lt_ec(mv_exp, mv_c, R[0], R[1])
+    om = self.overflow.name
+    arm_inf = ovf and om == 'OVERFLOW' and ovf_to_inf(self.rm, s, rto, rte)
+    return {
+        'ValueError': (nan and not self.enable_nan and self.nan_value is None)
+                      or (inf and not self.enable_inf and self.inf_value is None)
+                      or (nz and exact and (R[2] or ovf))
+                      or (arm_inf and not exact and not self.enable_inf and self.inf_value is None),
+        'OverflowError': ovf and not exact and om == 'ASSERT',
+    }
+
+
+def mpb_nmin(self):
+    # emin - pmax, read from the format object as the code does (the invariant makes both views equal)
+    return self._fmt.emin - self._fmt.pmax
+
+
+def mpb_R(self, x, n):
+    nn = mpb_nmin(self) if n is None else max2(n, mpb_nmin(self))
+    return rnd_at(op_real(x), self.pmax, round_nstar(op_real(x), self.pmax, nn), self.rm)
+
+
+def mpb_post(self, x, n, exact, r):
+    return bounded_post(self, x, n, r, mpb_R(self, x, n), mpb_nmin(self), self.pmax, True, True, True, True)
+
+
+def mpb_raises(self, x, n, exact):
+    return bounded_raises(self, x, exact, mpb_R(self, x, n), True, True)
